@@ -67,7 +67,7 @@ def apply_clauses(src, clauses):
             src = src.replace(c["old"], c["new"])
     toks = lex(src)
     edits = []
-    if all(c["op"] in ("rewrite", "before", "after", "tail") for c in clauses):
+    if all(c["op"] in ("rewrite", "before", "after", "tail", "after_stmt") for c in clauses):
         fnk, body = -1, -1
     else:
         fnk, body = _fn_parts(src, toks)
@@ -148,6 +148,26 @@ def apply_clauses(src, clauses):
             if op == "after":
                 p += len(a)
             edits.append((p, p, "\n" + c["text"].rstrip() + "\n"))
+        elif op == "after_stmt":
+            # insert after the `;` that ends the statement starting at <anchor>
+            a = c["anchor"]
+            if src.count(a) != 1:
+                raise LostAnchor(f"after_stmt anchor occurs {src.count(a)} times: {a[:60]!r}")
+            p = src.find(a)
+            k0 = next((k for k, t in enumerate(toks) if t.start == p), None)
+            if k0 is None:
+                raise LostAnchor("after_stmt anchor not at a token start")
+            d = toks[k0].depth
+            k = k0
+            while k < len(toks) and not (toks[k].text == ";" and toks[k].depth == d):
+                if toks[k].kind == "open":
+                    k = toks[k].mate
+                if toks[k].kind == "close" and toks[k].depth < d:
+                    raise LostAnchor("after_stmt: statement has no terminating `;`")
+                k += 1
+            if k >= len(toks):
+                raise LostAnchor("after_stmt: statement has no terminating `;`")
+            edits.append((toks[k].end, toks[k].end, "\n" + c["text"].rstrip() + "\n"))
         elif op == "tail":
             # the block-tail expression starting at <anchor>:  E  ->  let NAME = E; <text> NAME
             a = c["anchor"]
